@@ -51,6 +51,10 @@ CHECKS = {
    text="(A) check_kwargs_shape runs on array stand-ins whose extents are unbounded z3 integers: ValueError <=> undocumented (ndim, axis, option-shape) combination, for all extents at once; (B) the group entry points on small arrays with compute_features cut: invalid combinations raise ValueError before any signal is analysed, valid ones are accepted; (C) each documented range parameter is one z3 real/integer at each public entry point: outside its range => ValueError and no table, inside => accepted; (D) enumerated options incl. unknown string / None / int, dimensionality guards, plot-before-fit.",
    note="Trusted: models (witness-validated); neurodsp stubs reject fs <= 0 like the real library; cut of the cyclepoint search where only the exception behaviour matters. The decision table of documented option-list shapes is written out in evidence.assumptions.",
    ref="4 C19"),
+ 'C20': dict(
+   text="Part 1: raw / z-scored samples, feature cells, labels and thresholds are z3 variables, cyclepoint positions and x-limits on the sample grid z3 integers; the real plot functions run with recording stubs and every marker, the highlight mask, every parameter panel and the threshold line handed to neurodsp / matplotlib are proved against the table (genuine cyclepoint of its kind, completeness for the cyclepoint plots, burst samples only / all samples of bursting cycles inside the view, values at cycle centres). Part 2: the seconds<->samples conversions of the plot code, limit_df and limit_signal are translated from the current source AST into QF_FP and z3 proves, per sampling rate and per binade of sample indices, that they pick the same sample as exact arithmetic.",
+   note="Trusted: models (witness-validated); that neurodsp / matplotlib draw what they are given. Part 1 uses power-of-two fs (exact time axis); Part 2 covers fs in {1000, 250, 512} and indices < 2^14 (quick) / seven rates and < 2^20 (thorough); an expression shape the translator does not understand is reported inconclusive.",
+   ref="4 C20", tech="bounded symbolic execution of the unmodified plot code over numpy/pandas models (z3 decides every path/obligation) + AST-to-QF_FP translation of the seconds<->samples expressions decided by z3's bit-blasting FP solver; counterexamples replayed on real numpy"),
  'C14': dict(
    text="One inductive step instead of history enumeration: from symbolic settings (threshold values, min_n_cycles, reductions as z3 variables) the constructor is proved to store exactly its arguments with shorthand names expanded; fit is proved to call compute_features with exactly the stored settings, to store its result and to leave the option dictionaries value-equal; recompute_edges(r) is proved to hand over every *_threshold lowered by r without touching the stored thresholds; group models are proved to mirror df_features / sigs by position. Real-pipeline runs compare Bycycle.fit with compute_features and four explicit histories (fit/edit/refit, fit/recompute/refit, load/fit, fit A/fit B) with a fresh object on the same path.",
    note="Trusted: models (witness-validated); stubs (same input -> same output); cyclepoint search cut to an arbitrary C01-conforming table in the real-pipeline steps. Histories longer than 3 steps are covered only through the invariant argument. Bounds in evidence.bounds.",
